@@ -516,3 +516,18 @@ Theorem dedup_helper_merge_refuted :
   finish ZS false helper_surfs helper_volus 5 6 = Err EKey /\
   exists out, finish ZS true helper_surfs helper_volus 5 6 = Ok out.
 Proof. split; [vm_compute; reflexivity|eexists; vm_compute; reflexivity]. Qed.
+
+(* second witness: the only live cell  -1 2  with 1, 2 both PX 2 (tables as
+   construct_volume_t4 builds them; helper planes 4, 5).  After de-duplication every
+   volume is patently empty and is removed; the writer's progress meter then takes
+   max() of an empty set (ValueError).  Without de-duplication the (geometrically
+   empty) volume is written. *)
+Definition empty_surfs : list (Z * desc Z) :=
+  [(1, mkDesc 0%N [2] None); (2, mkDesc 0%N [2] None); (4, mkDesc 0%N [1] None); (5, mkDesc 0%N [-1] None)].
+Definition empty_volus : list (Z * volu) :=
+  [(4, mkVolu [2] [1] None true); (1, mkVolu [2] [1] None false)].
+
+Theorem dedup_all_empty_refuted :
+  finish ZS false empty_surfs empty_volus 4 5 = Err EValue /\
+  exists out, finish ZS true empty_surfs empty_volus 4 5 = Ok out.
+Proof. split; [vm_compute; reflexivity|eexists; vm_compute; reflexivity]. Qed.
